@@ -80,6 +80,30 @@ def _parse_call(msg: str, fn):
     return out
 
 
+def _with_extra_preconditions(mod, fn, pres):
+    """
+    CrossHair reads PEP316 conditions from the function's SOURCE LINES (not from __doc__), so extra preconditions
+    (regions of known findings / neighbourhoods of non-reproducing counterexamples) are added by re-compiling the
+    function from its source text with additional `pre:` lines, registered in linecache under a synthetic file name.
+    """
+    import linecache
+    import textwrap
+
+    src = textwrap.dedent(inspect.getsource(fn))
+    lines = src.split("\n")
+    idx = next((k for k, l in enumerate(lines) if l.strip().startswith("post:")), None)
+    if idx is None:
+        raise RuntimeError("harness function without a post: line")
+    indent = lines[idx][: len(lines[idx]) - len(lines[idx].lstrip())]
+    new_src = "\n".join(lines[:idx] + [indent + "pre: " + p for p in pres] + lines[idx:]) + "\n"
+    fname = "<vf-extra-pre-%s-%d>" % (fn.__name__, abs(hash(new_src)) % 10**8)
+    linecache.cache[fname] = (len(new_src), None, new_src.splitlines(True), fname)
+    code = compile(new_src, fname, "exec")
+    ns = mod.__dict__
+    exec(code, ns)
+    return ns[fn.__name__]
+
+
 def _analyze_one(modname, fnname, case, timeout, floatmodel, exclusions, first):
     from vf import boot
     import crosshair.core as core
@@ -97,11 +121,7 @@ def _analyze_one(modname, fnname, case, timeout, floatmodel, exclusions, first):
         mod = importlib.import_module(modname)
     fn = getattr(mod, fnname)
     if exclusions:
-        doc = fn.__doc__ or ""
-        lines = doc.split("\n")
-        idx = next((k for k, l in enumerate(lines) if l.strip().startswith("post:")), len(lines))
-        extra = ["    pre: not (%s)" % e for e in exclusions]
-        fn.__doc__ = "\n".join(lines[:idx] + extra + lines[idx:])
+        fn = _with_extra_preconditions(mod, fn, ["not (%s)" % e for e in exclusions])
 
     records = []
     exh = []
@@ -208,9 +228,9 @@ def _analyze_one(modname, fnname, case, timeout, floatmodel, exclusions, first):
     notes = sorted(set(boot._NOTES), key=repr)
     funcs = sorted(
         {
-            c.co_filename.split("/repo/")[-1] + ":" + getattr(c, "co_qualname", c.co_name)
+            c.co_filename[c.co_filename.index("/nrel/hive/") + 1:] + ":" + getattr(c, "co_qualname", c.co_name)
             for c in seen_codes
-            if "/repo/nrel/" in c.co_filename
+            if "/nrel/hive/" in c.co_filename and "site-packages" not in c.co_filename
         }
     )
     out = dict(
@@ -231,6 +251,7 @@ def _analyze_one(modname, fnname, case, timeout, floatmodel, exclusions, first):
         error=err,
         exclusions=exclusions,
         cov_ok=cov_ok,
+        hive_root=os.path.dirname(os.path.dirname(os.path.dirname(sys.modules["nrel.hive"].__file__))) if "nrel.hive" in sys.modules else None,
         unknown_sat=cut["unknown_sat"],
         unexplored=cut["unexplored"],
     )
